@@ -50,6 +50,12 @@ def install() -> None:
     _real_connect = duckdb.connect
 
     def sim_connect(*a: Any, **k: Any) -> "SimDuck":
+        # the engine's internal parallelism is below the seam (DESIGN.md section 10): one engine thread per
+        # instance keeps 16 worker processes from oversubscribing the cores; an explicit setting is respected
+        if os.environ.get("FSSIM_ENGINE_THREADS", "1") != "0":
+            cfg = dict(k.get("config") or {})
+            cfg.setdefault("threads", int(os.environ.get("FSSIM_ENGINE_THREADS", "1")))
+            k["config"] = cfg
         return SimDuck(_real_connect(*a, **k), root=True)
 
     duckdb.connect = sim_connect
